@@ -5,7 +5,7 @@ from itertools import product
 
 POOL1 = ["a", "x1", "_u", "Zed", "I", "order_id", "index", "not_active", "android", "iffy", "elsewhere", "define", "salty",
          "returned", "weighted_avg", "in_stock", "notin", "orchid", "splitters_2", "org", "format", "_", "__x__", "e", "u",
-         "if_", "in_", "or_", "and1", "not1", "def_", "else_", "return0", "Else", "IF", "Weighted", "salt_", "l", "O0"]  # fmt: skip
+         "self", "cls", "population", "weights", "input_id", "cum_weights", "ast", "code_holder", "fn_name", "if_", "in_", "or_", "and1", "not1", "def_", "else_", "return0", "Else", "IF", "Weighted", "salt_", "l", "O0"]  # fmt: skip
 
 POOL2 = ["class", "lambda", "None", "True", "is", "for", "import", "pass", "while", "yield", "as", "del", "elif", "from", "with",
          "__debug__", "str", "map", "partial", "kwargs", "deterministic_choice", "choose_experiment_variant",
